@@ -97,7 +97,20 @@ def sanitise_steps(mn):
     return steps
 
 
+def check_main_loop():
+    """each input file is compiled under ITS namespace and written under ITS output stem: the loop of main() binds the
+    three lists in step and hands `namespace` to the compiler, `outfile` to the writer"""
+    src = ast.unparse(ast.parse(open(os.path.join(common.REPO, "ffcx/main.py")).read()))
+    for frag in ("for filename, namespace, outfile in zip(filenames, namespaces, outfiles):",
+                 "namespace=namespace", "formatting.write_code(code, outfile, suffixes, xargs.dir)",
+                 "namespaces = [sanitise_filename(name) for name in filenames]", "namespaces = xargs.namespace",
+                 "outfiles = [sanitise_filename(name) for name in filenames]", "outfiles = xargs.outfile"):
+        if frag not in src:
+            raise TranslationError(f"main.py: expected fragment {frag!r} not found (how file name, namespace and output stem are paired)")
+
+
 def generate():
+    check_main_loop()
     opt = ast.parse(open(os.path.join(common.REPO, "ffcx/options.py")).read())
     keys, isbool = [], {}
     for n in opt.body:
